@@ -13,6 +13,7 @@ import (
 	"pgregory.net/rapid"
 
 	h "verif/harness"
+	"verif/zn"
 )
 
 func TestMain(m *testing.M) { h.Main(m, "C06", replay) }
@@ -128,7 +129,7 @@ func runScopeOps(ops []scopeOp) []h.Failure {
 			case "get":
 			}
 			// invariant: every pool name resolves to the model's innermost binding
-			for _, n := range scopeNames {
+			for _, n := range poolOf(ops) {
 				got := sp.GetValue(n)
 				b := lookup(n)
 				if b == nil {
@@ -157,9 +158,47 @@ func runScopeOps(ops []scopeOp) []h.Failure {
 
 var scopeNames = []string{"a", "b", "c", "d"}
 
+// poolOf - the names whose resolution is compared after every step: the standard pool, every
+// name the history uses and, for each of those, its hash twins (zn.HashTwins) - whether or
+// not the history ever binds them
+func poolOf(ops []scopeOp) []string {
+	seen := map[string]bool{}
+	var out []string
+	add := func(n string) {
+		if n != "" && !seen[n] {
+			seen[n] = true
+			out = append(out, n)
+		}
+	}
+	for _, n := range scopeNames {
+		add(n)
+	}
+	for _, op := range ops {
+		add(op.Name)
+		for _, tw := range zn.HashTwins {
+			if tw[1] == op.Name {
+				add(tw[2])
+			}
+			if tw[2] == op.Name {
+				add(tw[1])
+			}
+		}
+	}
+	return out
+}
+
 func TestScopeMachine(t *testing.T) {
 	rapid.Check(t, func(t *rapid.T) {
 		n := rapid.IntRange(1, 40).Draw(t, "n")
+		// half of the histories use, next to two ordinary names, two DIFFERENT names with the
+		// same value under a commonplace hash function
+		names := scopeNames
+		twins := ""
+		if rapid.Bool().Draw(t, "twins") {
+			tw := rapid.SampledFrom(zn.HashTwins).Draw(t, "twin-pair")
+			names = []string{"a", "b", tw[1], tw[2]}
+			twins = "names-with-equal-" + tw[0]
+		}
 		var ops []scopeOp
 		depth := 0
 		val := 0
@@ -188,7 +227,7 @@ func TestScopeMachine(t *testing.T) {
 					rejectedThenRead = true
 				}
 			default:
-				op.Name = rapid.SampledFrom(scopeNames).Draw(t, "name")
+				op.Name = rapid.SampledFrom(names).Draw(t, "name")
 				val++
 				op.Val = val
 				if k == "declare" || k == "const" {
@@ -215,6 +254,9 @@ func TestScopeMachine(t *testing.T) {
 		}
 		if rejectedThenRead {
 			labels = append(labels, "possibly-rejected-then-read")
+		}
+		if twins != "" {
+			labels = append(labels, twins)
 		}
 		h.R.Case(t, "scope", string(key), ops, labels, shadow2 || rejectedThenRead, runScopeOps(ops))
 	})
